@@ -28,4 +28,15 @@ def opJdec : P Out := do
     | some v => "ok " ++ showVal v
     | none => "err")
 
+/-- `jtail s t` : `NewMapJson (s ++ t)`.  When `s` is not empty and accepted the answer is computed
+    from `s` ALONE — by `C06_trailing_ignored` it is the answer for `s ++ t`; the tail is not read.
+    The harness compares it with the library's answer for the whole text. -/
+def opJtail : P Out := do
+  let s ← pStr; let t ← pStr; pEnd
+  let r := if !s.isEmpty && (Json.newMapJson s).isSome then Json.newMapJson s
+           else Json.newMapJson (s ++ t)
+  pure (match r with
+    | some v => "ok " ++ showVal v
+    | none => "err")
+
 end Mxj.Drv
